@@ -89,6 +89,17 @@ def center_find(image, centers=1, threshold=.5, blursize=3.):
     if blursize>0:
         image.values = gaussian_filter(image.values, blursize)
     col_deriv, row_deriv = image_gradient(image)
+    # pixels that are not square: the fringes are ellipses in pixel space,
+    # whose gradients do not point at the centre. The direction of the
+    # physical gradient, expressed in pixels, does.
+    try:
+        spacing_x, spacing_y = (float(np.diff(image[dim].values)[0])
+                                for dim in 'xy')
+    except (KeyError, IndexError, AttributeError):
+        spacing_x = spacing_y = 1.
+    if spacing_x != spacing_y:
+        col_deriv = col_deriv * (spacing_y / spacing_x)
+        row_deriv = row_deriv * (spacing_x / spacing_y)
     while col_deriv.ndim > 2:
         col_deriv = col_deriv[:,:,0]
         row_deriv = row_deriv[:,:,0]
